@@ -79,7 +79,14 @@ class LPMixin(StmtMixin):
         return any(getattr(f, "mode", None) == "assume" for f in st.frames)
 
     def lp_emit(self, st, name, term, where=""):
-        term = z3.simplify(term)
+        ld = getattr(self, "_last_diff", None)
+        diff = ld[1] if ld is not None and ld[0] == term.get_id() else None
+        self._last_diff = None
+        if diff is not None:
+            # keep the normal form  diff <= 0  (real-valued comparison of families is easier to discharge)
+            term = diff <= 0
+        else:
+            term = z3.simplify(term)
         if self.in_spec_model(st):
             name = "spec:" + name
         allb = self.cur_binders(st)
@@ -168,10 +175,25 @@ class LPMixin(StmtMixin):
                             sg = z3.substitute(s_[2], *ren) if ren else s_[2]
                             stm = z3.substitute(s_[3], *ren) if ren else s_[3]
                             cand = self.forall(list(c[1]), t_and(c[2] == sg, z3.Implies(c[2], c[3] == stm)))
-                            pieces = (self.forall(list(c[1]), c[2] == sg), self.forall(list(c[1]), z3.Implies(c[2], c[3] == stm)))
+                            if len(self.sort_perms(list(c[1]), list(s_[1]))) == 1 and len([x for x in ss if len(x[1]) == len(c[1])]) == 1:
+                                cand = None  # unique candidate: no need to probe with the solver
+                            # a family merged from several paths of the loop body is an if-then-else chain:
+                            # compare case by case
+                            cases, rest_t, acc = [], c[3], z3.BoolVal(True)
+                            while z3.is_app_of(rest_t, z3.Z3_OP_ITE) and z3.is_bool(rest_t.arg(1)):
+                                cases.append((t_and(acc, rest_t.arg(0)), rest_t.arg(1)))
+                                acc = t_and(acc, z3.Not(rest_t.arg(0)))
+                                rest_t = rest_t.arg(2)
+                            cases.append((acc, rest_t))
+                            def same(ct, stm):
+                                if z3.is_le(ct) and z3.is_le(stm) and z3.simplify(ct.arg(1)).eq(z3.RealVal(0)) and z3.simplify(stm.arg(1)).eq(z3.RealVal(0)):
+                                    return ct.arg(0) == stm.arg(0)
+                                return ct == stm
+                            pieces = (self.forall(list(c[1]), c[2] == sg),
+                                      [self.forall(list(c[1]), z3.Implies(t_and(c[2], cg), same(ct, stm))) for cg, ct in cases])
                             if best is None:
                                 best = (j, cand, pieces)
-                            if self.quick_valid(st, cand):
+                            if cand is None or self.quick_valid(st, cand):
                                 best = (j, cand, pieces)
                                 break
                         else:
@@ -187,8 +209,10 @@ class LPMixin(StmtMixin):
                         suffix = f"#{k2}" if len(parts) > 1 else ""
                         obls.append(Obligation(f"family/{name}{suffix}/guard", "family", st.hyps(), z3.simplify(pg), cs[0][4],
                                                {"text": f"emitted family {name}: same index set as the specified family"}))
-                        obls.append(Obligation(f"family/{name}{suffix}/body", "family", st.hyps(), z3.simplify(pb), cs[0][4],
-                                               {"text": f"emitted family {name}: same constraint as the specified family"}))
+                        for k3, one in enumerate(pb):
+                            sfx2 = f".{k3}" if len(pb) > 1 else ""
+                            obls.append(Obligation(f"family/{name}{suffix}/body{sfx2}", "family", st.hyps(), one, cs[0][4],
+                                                   {"text": f"emitted family {name}: same constraint as the specified family"}))
                     continue
             if goal is None:
                 goal = t_and(*[self.family_formula(f) for f in cs]) == t_and(*[self.family_formula(f) for f in ss])
@@ -204,6 +228,8 @@ class LPMixin(StmtMixin):
     def constr_term(self, st, c):
         c = self.force(st, c)
         if isinstance(c, VConstr):
+            if c.diff is not None:
+                self._last_diff = (c.t.get_id(), c.diff, c.t)
             return c.t
         if isinstance(c, VBool):
             return c.t
